@@ -478,7 +478,7 @@ func TestCheck(t *testing.T) {
 		do(Case{Format: "par2", DataPresent: 0})
 		do(Case{Format: "par1", DataPresent: 2})
 	}
-	cfg.SetRapid(cfg.N(250, 5000), 1)
+	cfg.SetRapid(cfg.N(1000, 8000), 1)
 	rapid.Check(t, func(rt *rapid.T) {
 		var c Case
 		if rapid.Bool().Draw(rt, "p2") {
